@@ -119,6 +119,17 @@ def case_month(mon, y, m, ks):
                 mon.dev("offset==iers", {"date": [y, m, d, list(t)],
                                          "raised": repr(ex)})
                 continue
+            try:
+                fj = {"Epoch(jde, utc=True)": Epoch(e_tt.jde(),
+                                                    utc=True).jde(),
+                      "Epoch(epoch, utc=True)": Epoch(e_tt, utc=True).jde()}
+            except Exception as ex:
+                fj = {"raised": repr(ex)}
+            mon.check("utc.forms-agree",
+                      all(isinstance(v, float) and abs(v - e_utc.jde())
+                          <= 1e-9 for v in fj.values()),
+                      lambda: {"date": [y, m, d, list(t)],
+                               "from_fields": e_utc.jde(), "other_forms": fj})
             off = (e_utc.jde() - e_tt.jde()) * 86400.0
             clause = ("offset==iers" if (y, m, d) >= (1972, 1, 1)
                       else "offset.before-1972==0")
@@ -206,13 +217,44 @@ def case_month(mon, y, m, ks):
                     e_s = Epoch(2451545.0)
                     e_s.set(y, m, d, t[0], t[1], t[2], leap_seconds=k)
                     forms["set(..., leap_seconds=k)"] = e_s.jde()
+                    # the instant given as a JDE number or as another Epoch
+                    forms["Epoch(jde, leap_seconds=k)"] = Epoch(
+                        e_tt.jde(), leap_seconds=k).jde()
+                    forms["Epoch(epoch, leap_seconds=k)"] = Epoch(
+                        e_tt, leap_seconds=k).jde()
+                    e_s2 = Epoch(2440000.5)
+                    e_s2.set(e_tt.jde(), leap_seconds=k)
+                    forms["set(jde, leap_seconds=k)"] = e_s2.jde()
                 except Exception as ex:
                     forms = {"raised": repr(ex)}
                 mon.check("override.forms-agree",
-                          all(v == e_k.jde() for v in forms.values()),
+                          all(isinstance(v, float)
+                              and abs(v - e_k.jde()) <= 1e-9
+                              for v in forms.values()),
                           lambda: {"date": [y, m, d, list(t)], "k": k,
                                    "leap_seconds=k alone": e_k.jde(),
                                    "other_forms": forms})
+                # reading back with both keywords, in either order, is
+                # reading back with the explicit count
+                try:
+                    rb = {"leap_seconds=k": e_k.get_full_date(leap_seconds=k),
+                          "utc=True, leap_seconds=k": e_k.get_full_date(
+                              utc=True, leap_seconds=k),
+                          "leap_seconds=k, utc=True": e_k.get_full_date(
+                              leap_seconds=k, utc=True),
+                          "get_date both orders": (
+                              e_k.get_date(utc=True, leap_seconds=k)
+                              == e_k.get_date(leap_seconds=k, utc=True)
+                              == e_k.get_date(leap_seconds=k))}
+                except Exception as ex:
+                    rb = {"raised": repr(ex)}
+                mon.check("override.forms-agree",
+                          rb.get("get_date both orders") is True
+                          and rb["leap_seconds=k"]
+                          == rb["utc=True, leap_seconds=k"]
+                          == rb["leap_seconds=k, utc=True"],
+                          lambda: {"date": [y, m, d, list(t)], "k": k,
+                                   "read_back_forms": repr(rb)[:400]})
                 errk = backk - _civil_seconds(y, m, d, *t)
                 mon.check("override.readback", abs(errk) <= 1.05e-3,
                           lambda: {"date": [y, m, d, list(t)], "k": k,
